@@ -255,9 +255,10 @@ package inode
 //@   ensures [F2-more] result <==> ip.IsShrinking() @C05
 //@   ensures [R7-persisted] !dirtyinum[ip.Inum] && othersClean(ip) @C01 @C10
 //@   ensures [F3-monotone] ip.ShrinkSize <= old(ip.ShrinkSize) && ip.Size == old(ip.Size) @C05
+//@   ensures [F3-floor] ip.ShrinkSize >= (ip.Size + 4095) / 4096 || ip.ShrinkSize == old(ip.ShrinkSize) @C05 @C02 @C12
 //@   ensures [I1-inode] inodeInv(ip) @C04
 //@   ensures listsValid(op) && listsStable(op)
-//@   loop 0 invariant inodeInv(ip) && listsValid(op) && listsStable(op) && ip.ShrinkSize <= old(ip.ShrinkSize) && ip.Size == old(ip.Size) && othersClean(ip)
+//@   loop 0 invariant inodeInv(ip) && listsValid(op) && listsStable(op) && ip.ShrinkSize <= old(ip.ShrinkSize) && ip.Size == old(ip.Size) && othersClean(ip) && (ip.ShrinkSize >= (ip.Size + 4095) / 4096 || ip.ShrinkSize == old(ip.ShrinkSize))
 //@   loop 0 decreases ip.ShrinkSize
 
 //@ spec (*Inode).zeroTail
